@@ -23,8 +23,9 @@ PROPS = {
 
 PROPS["C17"] = dict(
     modules=["Hub.Props.C17"],
-    gens=["c17", "c17empty"],
-    rule="real wrappedSink.processEntities (with the real LogFailingEntityHandler behind a recorder) against a scripted sink: all subsets "
+    gens=["c17", "c17empty", "c17overlap"],
+    rule="(c17.overlap) the real job.Run over one batch with a rejecting sink while a second trigger of the same job fires during the k-th sink call and is turned away by the raffle: "
+         "the outcome must be that of the undisturbed bisection; real wrappedSink.processEntities (with the real LogFailingEntityHandler behind a recorder) against a scripted sink: all subsets "
          "of rejected positions for one batch of size <=7 (thorough <=10) x all maxItems in [0,n+1], plus sampled multi-batch runs with "
          "transient call failures and batches up to 200; non-trivial = more than one entity and at least one failure; distinct = distinct input",
     trusted=["the sink is an arbitrary stateful oracle in the theorems; the harness realises permanent and per-call transient oracles",
